@@ -205,6 +205,412 @@ theorem same_file_overlap_ok :
     ((runN C19.S0 [0, 1, 0, 0, 0, 1, 1, 0, 0, 0, 0, 0, 1, 1, 1, 1, 1, 1, 1] (fs1, two)).2 0).pc matches .done (.ok 5105) ∧
     ((runN C19.S0 [0, 1, 0, 0, 0, 1, 1, 0, 0, 0, 0, 0, 1, 1, 1, 1, 1, 1, 1] (fs1, two)).2 1).pc matches .done (.ok 5105) := by decide
 
+/-! ### parses of the very same file that do not overlap: the general statements -/
+
+def setProc (ps : Nat → Proc P) (i : Nat) (p : Proc P) : Nat → Proc P := fun j => if j = i then p else ps j
+
+theorem runN_replicate (S : Sem) (n i : Nat) (fs : FS P) (ps : Nat → Proc P) :
+    runN S (List.replicate n i) (fs, ps) = ((iter S n (fs, ps i)).1, setProc ps i (iter S n (fs, ps i)).2) := by
+  induction n generalizing fs ps with
+  | zero =>
+    simp only [List.replicate, runN, iter]
+    congr 1
+    funext j
+    unfold setProc
+    split
+    · next h => rw [h]
+    · rfl
+  | succ n ih =>
+    simp only [List.replicate, runN, iter]
+    rw [ih]
+    simp only [if_true]
+    congr 1
+    funext j
+    unfold setProc
+    split <;> simp_all
+
+theorem runN_append (S : Sem) (a b : List Nat) (s : FS P × (Nat → Proc P)) :
+    runN S (a ++ b) s = runN S b (runN S a s) := by
+  induction a generalizing s with
+  | nil => rfl
+  | cons i r ih =>
+    obtain ⟨fs, ps⟩ := s
+    simp only [List.cons_append, runN]
+    exact ih _
+
+/-- **calls on the very same file that do not overlap in time**: any number of parses of one file,
+    each given its (at least nine) operations in one block, one block after the other in any order —
+    every one of them returns what a lone call returns, and the directory ends as it began. For every
+    content semantics and every document (the general form of the witness `same_file_sequential`). -/
+theorem same_file_blocks (S : Sem) (n : Nat) (hn : 9 ≤ n) (x s : P) (hxs : x ≠ s)
+    (order : List Nat) (hnd : order.Nodup) (fs : FS P) (hs : fs s = none) (ps : Nat → Proc P)
+    (hps : ∀ i ∈ order, ps i = start x s i) :
+    (∀ i ∈ order, ((runN S (order.flatMap fun i => List.replicate n i) (fs, ps)).2 i).pc = .done (loneFile S (fs x))) ∧
+    (runN S (order.flatMap fun i => List.replicate n i) (fs, ps)).1 = fs ∧
+    (∀ j, j ∉ order → (runN S (order.flatMap fun i => List.replicate n i) (fs, ps)).2 j = ps j) := by
+  induction order generalizing ps with
+  | nil => simp [runN]
+  | cons i r ih =>
+    have hi := hps i (by simp)
+    obtain ⟨d1, d2⟩ := iter_done S n hn fs x s i hxs hs
+    have hfs : (iter S n (fs, ps i)).1 = fs := by rw [hi]; funext q; exact d2 q
+    simp only [List.flatMap_cons, runN_append, runN_replicate, hfs]
+    have hnd' := (List.nodup_cons.1 hnd)
+    have hps' : ∀ j ∈ r, setProc ps i (iter S n (fs, ps i)).2 j = start x s j := by
+      intro j hj
+      have : j ≠ i := fun e => hnd'.1 (e ▸ hj)
+      simp [setProc, this, hps j (by simp [hj])]
+    obtain ⟨a, b, c⟩ := ih hnd'.2 (setProc ps i (iter S n (fs, ps i)).2) hps'
+    refine ⟨?_, b, ?_⟩
+    · intro j hj
+      rcases List.mem_cons.1 hj with rfl | hj
+      · rw [c j hnd'.1]
+        simp only [setProc, if_true]
+        rw [hi]; exact d1
+      · exact a j hj
+    · intro j hj
+      have hji : j ≠ i := fun e => hj (by simp [e])
+      rw [c j (fun h => hj (by simp [h]))]
+      simp [setProc, hji]
+
+
+/-! ### window-respecting schedules: the exact complement of finding D-C20a -/
+
+/-- the operations between the creation of the side file and its removal -/
+def Win : PC → Bool
+  | .preWrite _ _ | .rdOpen | .fin _ => true
+  | _ => false
+
+/-- the operations that look at, or create, the side-file name -/
+def Sens : PC → Bool
+  | .start | .preCreate _ => true
+  | _ => false
+
+/-- what a parser knows about the document, at each point of the protocol -/
+def Facts (S : Sem) (fx : Option File) : PC → Prop
+  | .start | .preRead => True
+  | .preDecode c => fx = some (.doc c) ∧ S.wf c = true
+  | .preCreate h => ∃ c, fx = some (.doc c) ∧ S.wf c = true ∧ S.header c = some h
+  | .preWrite h _ => ∃ c, fx = some (.doc c) ∧ S.wf c = true ∧ S.header c = some h
+  | .wclean => False
+  | .rdOpen => ∃ c h, fx = some (.doc c) ∧ S.wf c = true ∧ S.header c = some h
+  | .fin (.ok l) => ∃ c h, fx = some (.doc c) ∧ S.wf c = true ∧ S.header c = some h ∧ l = .hdr (some h)
+  | .fin (.error _) => False
+  | .decode l => ∃ c h, fx = some (.doc c) ∧ S.wf c = true ∧ S.header c = some h ∧ l = .hdr (some h)
+  | .body ho => ∃ c h, fx = some (.doc c) ∧ S.wf c = true ∧ S.header c = some h ∧ ho = some h
+  | .done r => r = loneFile S fx
+
+/-- what the side file holds while parser `p` is between its creation and its removal -/
+def OwnerFact (S : Sem) (fx : Option File) (sf : Option File) : PC → Prop
+  | .preWrite _ g => sf = some (.side g none)
+  | .rdOpen => ∃ g c h, fx = some (.doc c) ∧ S.header c = some h ∧ sf = some (.side g (some h))
+  | _ => True
+
+structure MInv (S : Sem) (fs0 : FS P) (x s : P) (st : FS P × (Nat → Proc P)) : Prop where
+  frame : ∀ q, q ≠ s → st.1 q = fs0 q
+  procs : ∀ i, (st.2 i).xml = x ∧ (st.2 i).side = s ∧ Facts S (fs0 x) (st.2 i).pc
+  own : (st.1 s = none ∧ ∀ j, Win (st.2 j).pc = false) ∨
+        ∃ i, Win (st.2 i).pc = true ∧ (∀ j, j ≠ i → Win (st.2 j).pc = false) ∧ OwnerFact S (fs0 x) (st.1 s) (st.2 i).pc
+
+/-- one scheduled operation -/
+def next (S : Sem) (i : Nat) (st : FS P × (Nat → Proc P)) : FS P × (Nat → Proc P) :=
+  ((step S false st.1 (st.2 i)).1, fun j => if j = i then (step S false st.1 (st.2 i)).2 else st.2 j)
+
+theorem runN_cons (S : Sem) (i : Nat) (r : List Nat) (st : FS P × (Nat → Proc P)) :
+    runN S (i :: r) st = runN S r (next S i st) := by
+  obtain ⟨fs, ps⟩ := st; rfl
+
+/-- a schedule is *window-respecting* when no parser checks for, or creates, the side file while
+    another one is between its own creation and removal of it -/
+def Safe (S : Sem) : List Nat → FS P × (Nat → Proc P) → Prop
+  | [], _ => True
+  | i :: r, st => (Sens (st.2 i).pc = true → ∀ j, Win (st.2 j).pc = false) ∧ Safe S r (next S i st)
+
+theorem loneFile_of_readXml_error (S : Sem) (fs : FS P) (x : P) (e : Err) (h : readXml S fs x = .error e) :
+    Res.err e = loneFile S (fs x) := by
+  unfold readXml at h
+  cases hx : fs x with
+  | none => rw [hx] at h; simp at h; subst h; rfl
+  | some fl =>
+    rw [hx] at h
+    cases fl with
+    | side g ho => simp at h; subst h; rfl
+    | doc c =>
+      simp only at h
+      split at h
+      · simp at h
+      · next hwf => simp at h; subst h; simp [loneFile, lone, hwf]
+
+theorem minv_next (S : Sem) (fs0 : FS P) (x s : P) (hxs : x ≠ s) (st : FS P × (Nat → Proc P)) (i : Nat)
+    (h : MInv S fs0 x s st) (hsafe : Sens (st.2 i).pc = true → ∀ j, Win (st.2 j).pc = false) :
+    MInv S fs0 x s (next S i st) := by
+  obtain ⟨fs, ps⟩ := st
+  obtain ⟨hfr, hpr, hown⟩ := h
+  simp only at hfr hpr hown hsafe
+  obtain ⟨hx, hs, hfacts⟩ := hpr i
+  have hxfs : fs x = fs0 x := hfr x hxs
+  -- the new state of the others is their old state
+  have hothers : ∀ j, j ≠ i → (next S i (fs, ps)).2 j = ps j := by intro j hj; simp [next, hj]
+  have hself : (next S i (fs, ps)).2 i = (step S false fs (ps i)).2 := by simp [next]
+  have hfs' : (next S i (fs, ps)).1 = (step S false fs (ps i)).1 := rfl
+  -- when parser i is inside its window, it is the owner
+  have owner_is : Win (ps i).pc = true → OwnerFact S (fs0 x) (fs s) (ps i).pc ∧ ∀ j, j ≠ i → Win (ps j).pc = false := by
+    intro hw
+    rcases hown with ⟨_, hall⟩ | ⟨k, hk, hrest, hof⟩
+    · rw [hall i] at hw; exact absurd hw (by simp)
+    · by_cases hki : i = k
+      · subst hki; exact ⟨hof, hrest⟩
+      · rw [hrest i hki] at hw; exact absurd hw (by simp)
+  rcases hp : ps i with ⟨pid, px, psd, pc⟩
+  simp only [hp] at hx hs hfacts hsafe owner_is
+  subst hx; subst hs
+  -- generic re-assembly: given the new fs at s, the new pc and its facts
+  have build : ∀ (fs' : FS P) (pc' : PC), (step S false fs (ps i)) = (fs', ⟨pid, px, psd, pc'⟩) →
+      (∀ q, q ≠ psd → fs' q = fs q) → Facts S (fs0 px) pc' →
+      ((fs' psd = none ∧ Win pc' = false ∧ (∀ j, j ≠ i → Win (ps j).pc = false)) ∨
+       (Win pc' = true ∧ (∀ j, j ≠ i → Win (ps j).pc = false) ∧ OwnerFact S (fs0 px) (fs' psd) pc') ∨
+       (Win pc' = false ∧ Win pc = false ∧ fs' psd = fs psd)) →
+      MInv S fs0 px psd (next S i (fs, ps)) := by
+    intro fs' pc' hstep hfr' hf' hcase
+    refine ⟨?_, ?_, ?_⟩
+    · intro q hq; rw [hfs', hstep]; simp only; rw [hfr' q hq]; exact hfr q hq
+    · intro j
+      by_cases hj : j = i
+      · subst hj; rw [hself, hstep]; exact ⟨rfl, rfl, hf'⟩
+      · rw [hothers j hj]; exact hpr j
+    · rw [hfs', hstep]
+      simp only
+      rcases hcase with ⟨h1, h2, h3⟩ | ⟨h1, h2, h3⟩ | ⟨h1, h2, h3⟩
+      · left
+        refine ⟨h1, ?_⟩
+        intro j
+        by_cases hj : j = i
+        · subst hj; rw [hself, hstep]; exact h2
+        · rw [hothers j hj]; exact h3 j hj
+      · right
+        refine ⟨i, ?_, ?_, ?_⟩
+        · rw [hself, hstep]; exact h1
+        · intro j hj; rw [hothers j hj]; exact h2 j hj
+        · rw [hself, hstep]; exact h3
+      · -- parser i was and stays outside its window and did not touch the side file: ownership is unchanged
+        rcases hown with ⟨ha, hall⟩ | ⟨k, hk, hrest, hof⟩
+        · left
+          refine ⟨by rw [h3]; exact ha, ?_⟩
+          intro j
+          by_cases hj : j = i
+          · subst hj; rw [hself, hstep]; exact h1
+          · rw [hothers j hj]; exact hall j
+        · right
+          have hki : k ≠ i := by
+            intro e; subst e; rw [hp] at hk; simp only at hk; rw [h2] at hk; exact absurd hk (by simp)
+          refine ⟨k, ?_, ?_, ?_⟩
+          · rw [hothers k hki]; exact hk
+          · intro j hj
+            by_cases hji : j = i
+            · subst hji; rw [hself, hstep]; exact h1
+            · rw [hothers j hji]; exact hrest j hj
+          · rw [hothers k hki, h3]; exact hof
+  cases pc with
+  | start =>
+    have hno := hsafe rfl
+    have hsnone : fs psd = none := by
+      rcases hown with ⟨ha, _⟩ | ⟨k, hk, _, _⟩
+      · exact ha
+      · rw [hno k] at hk; exact absurd hk (by simp)
+    refine build fs .preRead ?_ (fun _ _ => rfl) trivial (Or.inr (Or.inr ⟨rfl, rfl, rfl⟩))
+    rw [hp]; simp [step, hsnone, Proc.to]
+  | preRead =>
+    cases hr : readXml S fs px with
+    | error e =>
+      refine build fs (.done (.err e)) ?_ (fun _ _ => rfl) ?_ (Or.inr (Or.inr ⟨rfl, rfl, rfl⟩))
+      · rw [hp]; simp [step, hr, Proc.to]
+      · show Res.err e = loneFile S (fs0 px)
+        rw [← hxfs]; exact loneFile_of_readXml_error S fs px e hr
+    | ok c =>
+      refine build fs (.preDecode c) ?_ (fun _ _ => rfl) ?_ (Or.inr (Or.inr ⟨rfl, rfl, rfl⟩))
+      · rw [hp]; simp [step, hr, Proc.to]
+      · unfold readXml at hr
+        rw [hxfs] at hr
+        cases hfx : fs0 px with
+        | none => rw [hfx] at hr; simp at hr
+        | some fl =>
+          rw [hfx] at hr
+          cases fl with
+          | side g ho => simp at hr
+          | doc c' =>
+            simp only at hr
+            split at hr
+            · next hwf => simp at hr; subst hr; exact ⟨rfl, hwf⟩
+            · simp at hr
+  | preDecode c =>
+    obtain ⟨hdoc, hwf⟩ := hfacts
+    cases hh : S.header c with
+    | none =>
+      refine build fs (.done (.err .decode)) ?_ (fun _ _ => rfl) ?_ (Or.inr (Or.inr ⟨rfl, rfl, rfl⟩))
+      · rw [hp]; simp [step, hh, Proc.to]
+      · show Res.err .decode = loneFile S (fs0 px)
+        rw [hdoc]; simp [loneFile, lone, hwf, hh]
+    | some h =>
+      refine build fs (.preCreate h) ?_ (fun _ _ => rfl) ⟨c, hdoc, hwf, hh⟩ (Or.inr (Or.inr ⟨rfl, rfl, rfl⟩))
+      rw [hp]; simp [step, hh, Proc.to]
+  | preCreate h =>
+    have hno := hsafe rfl
+    have hsnone : fs psd = none := by
+      rcases hown with ⟨ha, _⟩ | ⟨k, hk, _, _⟩
+      · exact ha
+      · rw [hno k] at hk; exact absurd hk (by simp)
+    refine build (upd fs psd (some (.side pid none))) (.preWrite h pid) ?_ (fun q hq => by simp [upd, hq]) hfacts
+      (Or.inr (Or.inl ⟨rfl, fun j _ => hno j, by simp [OwnerFact, upd]⟩))
+    rw [hp]; simp [step, hsnone, Proc.to]
+  | preWrite h g =>
+    obtain ⟨hof, hrest⟩ := owner_is rfl
+    simp only [OwnerFact] at hof
+    obtain ⟨c, hdoc, hwf, hh⟩ := hfacts
+    refine build (upd fs psd (some (.side g (some h)))) .rdOpen ?_ (fun q hq => by simp [upd, hq]) ⟨c, h, hdoc, hwf, hh⟩
+      (Or.inr (Or.inl ⟨rfl, hrest, ⟨g, c, h, hdoc, hh, by simp [upd]⟩⟩))
+    rw [hp]; simp [step, hof, Proc.to]
+  | wclean => exact absurd hfacts (by simp [Facts])
+  | rdOpen =>
+    obtain ⟨hof, hrest⟩ := owner_is rfl
+    obtain ⟨g, c, h, hdoc, hh, hsf⟩ := hof
+    obtain ⟨c', h', hdoc', hwf', hh'⟩ := hfacts
+    have hc : c' = c := by rw [hdoc] at hdoc'; injection hdoc' with e; injection e with e; exact e.symm
+    subst hc
+    refine build fs (.fin (.ok (.hdr (some h)))) ?_ (fun _ _ => rfl) ⟨c', h, hdoc, hwf', hh, rfl⟩
+      (Or.inr (Or.inl ⟨rfl, hrest, trivial⟩))
+    rw [hp]; simp [step, hsf, Proc.to]
+  | fin r =>
+    obtain ⟨_, hrest⟩ := owner_is rfl
+    cases r with
+    | error e => exact absurd hfacts (by simp [Facts])
+    | ok l =>
+      refine build (upd fs psd none) (.decode l) ?_ (fun q hq => by simp [upd, hq]) hfacts
+        (Or.inl ⟨by simp [upd], rfl, hrest⟩)
+      rw [hp]; simp [step, Proc.to]
+  | decode l =>
+    obtain ⟨c, h, hdoc, hwf, hh, hl⟩ := hfacts
+    subst hl
+    refine build fs (.body (some h)) ?_ (fun _ _ => rfl) ⟨c, h, hdoc, hwf, hh, rfl⟩ (Or.inr (Or.inr ⟨rfl, rfl, rfl⟩))
+    rw [hp]; simp [step, Proc.to]
+  | body ho =>
+    obtain ⟨c, h, hdoc, hwf, hh, hho⟩ := hfacts
+    subst hho
+    have hr : readXml S fs px = .ok c := by simp [readXml, hxfs, hdoc, hwf]
+    cases hb : S.body c (some h) with
+    | none =>
+      refine build fs (.done (.err .element)) ?_ (fun _ _ => rfl) ?_ (Or.inr (Or.inr ⟨rfl, rfl, rfl⟩))
+      · rw [hp]; simp [step, hr, hb, Proc.to]
+      · show Res.err .element = loneFile S (fs0 px)
+        rw [hdoc]; simp [loneFile, lone, hwf, hh, hb]
+    | some r =>
+      refine build fs (.done (.ok r)) ?_ (fun _ _ => rfl) ?_ (Or.inr (Or.inr ⟨rfl, rfl, rfl⟩))
+      · rw [hp]; simp [step, hr, hb, Proc.to]
+      · show Res.ok r = loneFile S (fs0 px)
+        rw [hdoc]; simp [loneFile, lone, hwf, hh, hb]
+  | done r =>
+    refine build fs (.done r) ?_ (fun _ _ => rfl) hfacts (Or.inr (Or.inr ⟨rfl, rfl, rfl⟩))
+    rw [hp]; simp [step]
+
+
+theorem minv_run (S : Sem) (fs0 : FS P) (x s : P) (hxs : x ≠ s) (sched : List Nat) (st : FS P × (Nat → Proc P))
+    (h : MInv S fs0 x s st) (hsafe : Safe S sched st) : MInv S fs0 x s (runN S sched st) := by
+  induction sched generalizing st with
+  | nil => obtain ⟨fs, ps⟩ := st; exact h
+  | cons i r ih =>
+    rw [runN_cons]
+    exact ih _ (minv_next S fs0 x s hxs st i h hsafe.1) hsafe.2
+
+theorem minv_init (S : Sem) (fs : FS P) (x s : P) (hs : fs s = none) (ps : Nat → Proc P)
+    (hps : ∀ i, ps i = start x s i) : MInv S fs x s (fs, ps) :=
+  ⟨fun _ _ => rfl, fun i => by show (ps i).xml = x ∧ (ps i).side = s ∧ Facts S (fs x) (ps i).pc; rw [hps i]; exact ⟨rfl, rfl, trivial⟩,
+    Or.inl ⟨hs, fun j => by show Win (ps j).pc = false; rw [hps j]; rfl⟩⟩
+
+theorem rank_runN (S : Sem) (sched : List Nat) (st : FS P × (Nat → Proc P)) (i : Nat) :
+    C19.rank ((runN S sched st).2 i).pc ≤ C19.rank (st.2 i).pc - sched.count i := by
+  induction sched generalizing st with
+  | nil => obtain ⟨fs, ps⟩ := st; simp [runN]
+  | cons j r ih =>
+    rw [runN_cons]
+    have h1 := ih (next S j st)
+    by_cases hj : j = i
+    · subst hj
+      have h2 := C19.rank_step S false st.1 (st.2 j)
+      have : (next S j st).2 j = (step S false st.1 (st.2 j)).2 := by simp [next]
+      rw [this] at h1
+      simp only [List.count_cons_self]
+      omega
+    · have : (next S j st).2 i = st.2 i := by simp [next, Ne.symm hj]
+      rw [this] at h1
+      have hc : List.count i (j :: r) = List.count i r := by
+        rw [List.count_cons]; simp [hj]
+      rw [hc]; exact h1
+
+/-- **parses of the very same file under every window-respecting schedule** (the complement of finding
+    D-C20a): any number of parsers of one file, started on a directory without the side file, under
+    any schedule in which no parser checks for or creates the side file while another one is between
+    its own creation and removal of it. Every parser that was given its nine operations has finished
+    with exactly the lone result; nobody ever fails for a reason a lone call would not have; no file
+    other than the side file is touched; and once nobody is inside its window the side file is gone.
+    For every content semantics, every document, every number of parsers. -/
+theorem same_file_window_respecting (S : Sem) (x s : P) (hxs : x ≠ s) (fs : FS P) (hs : fs s = none)
+    (ps : Nat → Proc P) (hps : ∀ i, ps i = start x s i) (sched : List Nat) (hsafe : Safe S sched (fs, ps)) :
+    (∀ i, 9 ≤ sched.count i → ((runN S sched (fs, ps)).2 i).pc = .done (loneFile S (fs x))) ∧
+    (∀ i r, ((runN S sched (fs, ps)).2 i).pc = .done r → r = loneFile S (fs x)) ∧
+    (∀ q, q ≠ s → (runN S sched (fs, ps)).1 q = fs q) ∧
+    ((∀ j, Win ((runN S sched (fs, ps)).2 j).pc = false) → (runN S sched (fs, ps)).1 s = none) := by
+  have hm := minv_run S fs x s hxs sched (fs, ps) (minv_init S fs x s hs ps hps) hsafe
+  have hdone : ∀ i r, ((runN S sched (fs, ps)).2 i).pc = .done r → r = loneFile S (fs x) := by
+    intro i r hr
+    have := (hm.procs i).2.2
+    rw [hr] at this
+    exact this
+  refine ⟨?_, hdone, hm.frame, ?_⟩
+  · intro i hc
+    have hr := rank_runN S sched (fs, ps) i
+    have h9 : C19.rank ((fs, ps).2 i).pc = 9 := by simp only; rw [hps i]; rfl
+    rw [h9] at hr
+    obtain ⟨r, hr'⟩ := C19.done_of_rank (pc := ((runN S sched (fs, ps)).2 i).pc) (by omega)
+    rw [hr', hdone i r hr']
+  · intro hall
+    rcases hm.own with ⟨h, _⟩ | ⟨k, hk, _, _⟩
+    · exact h
+    · rw [hall k] at hk; exact absurd hk (by simp)
+
+
+/-! non-vacuity: the overlapping witness schedule is window-respecting (checked for the two scheduled
+    parsers by evaluation; the parsers that are never scheduled stay at their first operation) -/
+def safeB (S : Sem) : List Nat → FS P × (Nat → Proc P) → Bool
+  | [], _ => true
+  | i :: r, st => (!Sens (st.2 i).pc || (!Win (st.2 0).pc && !Win (st.2 1).pc)) && safeB S r (next S i st)
+
+theorem safe_of_safeB (S : Sem) (sched : List Nat) (st : FS P × (Nat → Proc P)) (hs : ∀ i ∈ sched, i < 2)
+    (hrest : ∀ j, 2 ≤ j → Win (st.2 j).pc = false) (hb : safeB S sched st = true) : Safe S sched st := by
+  induction sched generalizing st with
+  | nil => trivial
+  | cons i r ih =>
+    simp only [safeB, Bool.and_eq_true, Bool.or_eq_true, Bool.not_eq_true'] at hb
+    have hi : i < 2 := hs i (by simp)
+    refine ⟨?_, ih _ (fun k hk => hs k (by simp [hk])) ?_ hb.2⟩
+    · intro hsens j
+      rcases hb.1 with h | h
+      · rw [h] at hsens; exact absurd hsens (by simp)
+      · by_cases h0 : j = 0
+        · subst h0; exact h.1
+        · by_cases h1 : j = 1
+          · subst h1; exact h.2
+          · exact hrest j (by omega)
+    · intro j hj
+      have : j ≠ i := by omega
+      simp only [next, this, if_false]
+      exact hrest j hj
+
+example : Safe C19.S0 [0, 1, 0, 0, 0, 1, 1, 0, 0, 0, 0, 0, 1, 1, 1, 1, 1, 1, 1] (fs1, two) :=
+  safe_of_safeB _ _ _ (by decide) (fun _ _ => rfl) (by decide)
+
+/-- … whereas the schedule of finding D-C20a is not: B checks for the side file while A is inside its window -/
+example : safeB C19.S0 [0, 0, 0, 0, 0, 1] (fs1, two) = false := by decide
+
+
 /-! ### the process-wide NodeId cache is transparent -/
 def CacheOk {K V : Type} (f : K → V) (cache : List (K × V)) : Prop := ∀ e ∈ cache, e.2 = f e.1
 
